@@ -16,7 +16,6 @@ import re
 import common as C
 
 CLASSES = [None] * 19
-CLASSES[14] = "uidsearch_shape"
 CLASSES[17] = "noop_notices"
 MSG = "From: a@example.com\r\nTo: b@example.com\r\nSubject: t\r\n\r\nbody\r\n"
 
@@ -296,7 +295,7 @@ def build_probe_scenario(rng, name, k, probes, flags=None):
     return sc
 
 
-SESSION_CLASSES = [None, "check_swallows", "junk_move_count", "expunge_unannounced"]
+SESSION_CLASSES = [None, None, None, "expunge_unannounced"]
 
 
 def build_session_scenario(rng, name, script=None, risky=False, k=None):
